@@ -62,7 +62,7 @@ func Prop() *core.Prop {
 		ID:    "C18",
 		Level: core.Exploration,
 		Race:  true,
-		Rule: "case i: (7/8) a PRNG sequence over 1-3 rooms: per occupant 1-2 episodes of Client.Join (answered by the self-presence, an unsolicited early self-presence, an error for the request id, a cancellation, a cancellation racing the self-presence, error and self-presence both), time in the room (other occupants, repeated self-presence, Channel.Join re-sync) and going out (Leave confirmed / refused / cancelled, kick, kick right behind the self-presence, Channel.Join after leaving), stories interleaved with each other and with mediated invitations (unique reasons, 0-2 other children on either side, with and without type attribute), presence for a never-joined room, unrelated stanzas and barriers (peer ping answered by the session; Channel.Joined() sampled for every occupant without a call in flight); (1/8) forced scenarios M1-M3 at muc.leave.wait / muc.join.wait / muc.depart.notify, and M4/M5: 16 times per case the caller of Join (Leave) is held at muc.join.wait (muc.leave.wait) until the room's error reply for its request has been taken in by the library, then released; its context is never cancelled, so only the room's stanza error is legal; M6/M7: the room's error reply (self-presence) for a join arrives in two transport writes with the caller's cancellation in between, and the barrier behind it must be answered. Presences with undecodable muc#user payloads (unknown affiliation/role, non-numeric status code, wrong nesting, text) from a never-joined room or another occupant are mixed in, each followed by a barrier: the session must survive them. " +
+		Rule: "case i: (7/8) a PRNG sequence over 1-3 rooms: per occupant 1-2 episodes of Client.Join (answered by the self-presence, an unsolicited early self-presence, an error for the request id, a cancellation, a cancellation racing the self-presence, error and self-presence both), time in the room (other occupants, repeated self-presence, Channel.Join re-sync) and going out (Leave confirmed / refused / cancelled, kick, kick right behind the self-presence, Channel.Join after leaving), stories interleaved with each other and with mediated invitations (unique reasons, 0-2 other children on either side, with and without type attribute), presence for a never-joined room, unrelated stanzas and barriers (peer ping answered by the session; Channel.Joined() sampled for every occupant without a call in flight); (1/8) forced scenarios M1-M3 at muc.leave.wait / muc.join.wait / muc.depart.notify, and M4/M5: 16 times per case the caller of Join (Leave) is held at muc.join.wait (muc.leave.wait) until the room's error reply for its request has been taken in by the library, then released; its context is never cancelled, so only the room's stanza error is legal; M6/M7: the room's error reply (self-presence) for a join arrives in two transport writes with the caller's cancellation in between, and the barrier behind it must be answered; M8 is M6 for Leave. Presences with undecodable muc#user payloads (unknown affiliation/role, non-numeric status code, wrong nesting, text) from a never-joined room or another occupant are mixed in, each followed by a barrier: the session must survive them. " +
 			"Oracle over the event log: Join=nil needs an own self-presence sent before the return and not processed before the call; a stanza error needs the room's error for that request id; any other error needs a cancelled context; Joined() at a barrier equals the occupant model when the log determines it; Leave likewise; no user-presence callback for rooms never joined; every invitation marker delivered exactly once with equal fields; calls whose answer was processed but that stay parked are decided by the stall rule. distinct = (story shapes, outcome vector).",
 		Assumptions: []string{
 			"the serve loop handles stanzas in order, so a ping answered by the session means everything sent before it was processed",
@@ -82,7 +82,7 @@ func Prop() *core.Prop {
 			"sequences", "join_success", "joined_sampled_while_in", "joined_sampled_while_out", "join_room_error_returned", "join_cancelled",
 			"leave_success", "kicks", "foreign_presences", "invites_delivered_once", "barriers",
 			"forced_M1_reached", "forced_M2_reached", "forced_M3_reached", "own_removal_301", "own_removal_307", "own_removal_321", "own_removal_322", "own_removal_332", "own_departure_affiliation_outcast", "others_removal_301",
-			"forced_M4_reached", "forced_M5_reached", "forced_M6_reached", "forced_M7_reached", "foreign_malformed_payloads",
+			"forced_M4_reached", "forced_M5_reached", "forced_M6_reached", "forced_M7_reached", "forced_M8_reached", "stories_error_then_cancel", "foreign_malformed_payloads",
 		},
 	}
 }
